@@ -307,6 +307,336 @@ fn check_bcast(bcast: &[ChangeV1], own: klukai_types::actor::ActorId, version: u
     }
 }
 
+// ------------------------------------------------------------------------------------------
+// concurrent part: every order of the requests' critical sections x every interleaving of the
+// post-commit announcement tasks with later requests
+// ------------------------------------------------------------------------------------------
+
+static GATING: std::sync::atomic::AtomicBool = std::sync::atomic::AtomicBool::new(false);
+static PARKED_B: std::sync::Mutex<Vec<u64>> = std::sync::Mutex::new(Vec::new());
+static RELEASED_B: std::sync::Mutex<Vec<u64>> = std::sync::Mutex::new(Vec::new());
+
+fn install_gate() {
+    use std::sync::atomic::Ordering::SeqCst;
+    klukai_types::verif::set_point_handler(Some(std::sync::Arc::new(|name: &str, detail: &str| {
+        if name != "bcast.start" || !GATING.load(SeqCst) {
+            return;
+        }
+        let v: u64 = detail.parse().unwrap_or(0);
+        PARKED_B.lock().unwrap().push(v);
+        let start = Instant::now();
+        tokio::task::block_in_place(|| {
+            loop {
+                if RELEASED_B.lock().unwrap().contains(&v) || !GATING.load(SeqCst) || start.elapsed() > Duration::from_secs(30) {
+                    break;
+                }
+                std::thread::sleep(Duration::from_micros(100));
+            }
+        });
+        PARKED_B.lock().unwrap().retain(|x| *x != v);
+    })));
+}
+
+#[derive(Clone, Debug, PartialEq, serde::Serialize, serde::Deserialize)]
+enum CAct {
+    /// run request i (its critical section is atomic: write connection + booked lock)
+    R(usize),
+    /// let the announcement task of version v run to completion
+    B(u64),
+}
+
+struct ConcOut {
+    widths: Vec<usize>,
+    acts: Vec<CAct>,
+    violations: Vec<(String, Value)>,
+    outcome: u64,
+}
+
+fn run_conc(tpl: &Template, reqs: &[Req], prefix: &[usize]) -> ConcOut {
+    use std::sync::atomic::Ordering::SeqCst;
+    let s = Scratch::new("ltc");
+    let p = tpl.instantiate(&s.path().join("n"));
+    PARKED_B.lock().unwrap().clear();
+    RELEASED_B.lock().unwrap().clear();
+    GATING.store(true, SeqCst);
+    let rt = tokio::runtime::Builder::new_multi_thread().worker_threads(4).enable_all().build().unwrap();
+    let reqs = reqs.to_vec();
+    let prefix = prefix.to_vec();
+    let out = rt.block_on(async move {
+        let mut nd = Node::open(&p, NodeOpts::default()).await;
+        let own = nd.actor_id();
+        let base_tasks = alive_tasks();
+        let mut out = ConcOut { widths: vec![], acts: vec![], violations: vec![], outcome: 0 };
+        let mut rows: Rows = Rows::new();
+        let mut counter = 0u64;
+        let mut issued = vec![false; reqs.len()];
+        // version -> changes of that version as they were right after its commit
+        let mut ledger: BTreeMap<u64, Vec<klukai_types::change::Change>> = BTreeMap::new();
+        let mut announced: BTreeMap<u64, Vec<ChangeV1>> = BTreeMap::new();
+        loop {
+            let mut enabled: Vec<CAct> = (0..reqs.len()).filter(|i| !issued[*i]).map(CAct::R).collect();
+            let mut parked = PARKED_B.lock().unwrap().clone();
+            parked.sort();
+            enabled.extend(parked.iter().filter(|v| !RELEASED_B.lock().unwrap().contains(v)).map(|v| CAct::B(*v)));
+            if enabled.is_empty() {
+                break;
+            }
+            let k = out.widths.len();
+            let choice = if k < prefix.len() { prefix[k] } else { 0 };
+            if choice >= enabled.len() {
+                machinery_error(&format!("C07 concurrent: schedule prefix diverged at step {k}"));
+            }
+            out.widths.push(enabled.len());
+            let act = enabled[choice].clone();
+            out.acts.push(act.clone());
+            let tag = format!("{act:?} in {:?}", out.acts);
+            let mut bad = |key: &str, d: Value| out.violations.push((format!("C07:{key}"), json!({"at": tag, "d": d})));
+            match act {
+                CAct::R(i) => {
+                    issued[i] = true;
+                    let r = reqs[i];
+                    let (st, timeout) = stmts(r, i);
+                    let expect = model(r, i, &mut rows);
+                    let (status, body) = klukai_agent::api::public::api_v1_transactions(
+                        axum::Extension(nd.agent.clone()),
+                        axum::extract::Query(klukai_agent::api::public::TimeoutParams { timeout }),
+                        axum::extract::Json(st),
+                    )
+                    .await;
+                    let body = body.0;
+                    match expect {
+                        Err(()) => {
+                            if status.is_success() {
+                                bad("failing-request-acknowledged", json!({"req": format!("{r:?}")}));
+                            }
+                            if body.version.is_some() {
+                                bad("failed-request-consumed-a-version", json!({"version": body.version}));
+                            }
+                        }
+                        Ok(changed) => {
+                            if !status.is_success() {
+                                bad("valid-request-rejected", json!({"req": format!("{r:?}"), "body": format!("{body:?}")}));
+                            } else if changed {
+                                counter += 1;
+                                if body.version != Some(counter) {
+                                    bad("version-not-previous-plus-one", json!({"got": body.version, "want": counter}));
+                                    if let Some(v) = body.version {
+                                        counter = v;
+                                    }
+                                }
+                            } else if body.version.is_some() {
+                                bad("no-op-request-consumed-a-version", json!({"version": body.version}));
+                            }
+                        }
+                    }
+                    if let Some(v) = body.version {
+                        // its announcement task must reach the gate; remember the version's changes as committed
+                        let start = Instant::now();
+                        while !PARKED_B.lock().unwrap().contains(&v) {
+                            tokio::time::sleep(Duration::from_micros(200)).await;
+                            if start.elapsed() > Duration::from_secs(20) {
+                                machinery_error("C07 concurrent: announcement task never reached its scheduling point");
+                            }
+                        }
+                        let live = nd.crsql_changes().await;
+                        ledger.insert(v, live.into_iter().filter(|c| c.site_id == own.to_bytes() && c.db_version.0 == v).collect());
+                    } else {
+                        // nothing may have been spawned for it
+                        tokio::time::sleep(Duration::from_millis(2)).await;
+                    }
+                    // the table follows the model after every critical section
+                    let got = nd.table_rows("t").await;
+                    let want: Vec<Vec<String>> = rows.iter().map(|(id, (a, b))| vec![format!("i:{id}"), format!("t:{a}"), format!("t:{b}")]).collect();
+                    if got != want {
+                        bad("table-differs-from-model", json!({"got": got, "want": want}));
+                    }
+                }
+                CAct::B(v) => {
+                    let live_before = nd.crsql_changes().await;
+                    RELEASED_B.lock().unwrap().push(v);
+                    let start = Instant::now();
+                    loop {
+                        let still_parked = PARKED_B.lock().unwrap().len();
+                        if !PARKED_B.lock().unwrap().contains(&v)
+                            && klukai_types::spawn::PENDING_HANDLES.load(SeqCst) as usize <= still_parked
+                            && alive_tasks() <= base_tasks + still_parked
+                        {
+                            break;
+                        }
+                        tokio::time::sleep(Duration::from_micros(200)).await;
+                        if start.elapsed() > Duration::from_secs(20) {
+                            machinery_error("C07 concurrent: announcement task did not finish");
+                        }
+                    }
+                    let got = nd.drain_bcast();
+                    for c in &got {
+                        let cv = match &c.changeset {
+                            Changeset::Full { version, .. } => version.0,
+                            _ => 0,
+                        };
+                        announced.entry(cv).or_default().push(c.clone());
+                    }
+                    let mine: Vec<ChangeV1> = got.iter().filter(|c| matches!(&c.changeset, Changeset::Full { version, .. } if version.0 == v)).cloned().collect();
+                    if mine.len() != got.len() {
+                        bad("announcement-task-announced-another-version", json!({"task": v}));
+                    }
+                    // tiles 0..=last_seq; every change is one the version produced; every change of it
+                    // that is still live was announced
+                    let committed = ledger.get(&v).cloned().unwrap_or_default();
+                    let still_live: Vec<_> = live_before.iter().filter(|c| c.site_id == own.to_bytes() && c.db_version.0 == v).cloned().collect();
+                    let mut ranges = vec![];
+                    let mut sent = vec![];
+                    let mut last = None;
+                    for c in &mine {
+                        if let Changeset::Full { changes, seqs, last_seq, .. } = &c.changeset {
+                            ranges.push((seqs.start().0, seqs.end().0));
+                            last = Some(last_seq.0);
+                            for ch in changes {
+                                if ch.seq < *seqs.start() || ch.seq > *seqs.end() {
+                                    bad("change-outside-its-changeset-range", json!({"seq": ch.seq.0}));
+                                }
+                                sent.push(ch.clone());
+                            }
+                        }
+                    }
+                    if mine.is_empty() {
+                        bad("acknowledged-version-not-announced", json!({"version": v}));
+                    } else {
+                        let want_last = committed.iter().map(|c| c.seq.0).max().unwrap_or(0);
+                        let mut cur = 0;
+                        let mut tiles = true;
+                        for (s0, e0) in &ranges {
+                            if *s0 != cur || e0 < s0 {
+                                tiles = false;
+                            }
+                            cur = e0 + 1;
+                        }
+                        if !tiles || Some(cur) != last.map(|l| l + 1) || last != Some(want_last) {
+                            bad("announced-ranges-do-not-tile", json!({"ranges": ranges, "last_seq": last, "version_last_seq": want_last}));
+                        }
+                        for ch in &sent {
+                            if !committed.contains(ch) {
+                                bad("announced-change-not-of-this-version", json!({"version": v, "change": format!("{ch:?}")}));
+                                break;
+                            }
+                        }
+                        for ch in &still_live {
+                            if !sent.contains(ch) {
+                                bad("live-change-of-the-version-not-announced", json!({"version": v, "change": format!("{ch:?}")}));
+                                break;
+                            }
+                        }
+                    }
+                }
+            }
+        }
+        GATING.store(false, SeqCst);
+        // end state: every acknowledged version announced exactly by its own task, nothing else
+        let mut bad = |key: &str, d: Value| out.violations.push((format!("C07:{key}"), json!({"at": "end", "d": d})));
+        for v in 1..=counter {
+            if !announced.contains_key(&v) {
+                bad("acknowledged-version-not-announced", json!({"version": v}));
+            }
+        }
+        for v in announced.keys() {
+            if *v == 0 || *v > counter {
+                bad("announcement-for-a-version-never-acknowledged", json!({"version": v}));
+            }
+        }
+        let st = nd.sync_state().await;
+        let head = st.heads.get(&own).map(|h| h.0).unwrap_or(0);
+        if head != counter {
+            bad("version-counter-mismatch", json!({"advertised_head": head, "model": counter}));
+        }
+        if st.need.get(&own).map(|n| !n.is_empty()).unwrap_or(false) || st.partial_need.contains_key(&own) {
+            bad("node-lists-a-gap-in-its-own-versions", json!({"need": format!("{:?}", st.need.get(&own))}));
+        }
+        out.outcome = digest(&(rows.clone(), counter));
+        out
+    });
+    rt.shutdown_timeout(Duration::from_secs(5));
+    out
+}
+
+/// All multisets of `k` requests from `alpha`.
+fn multisets(alpha: &[Req], k: usize) -> Vec<Vec<Req>> {
+    fn rec(alpha: &[Req], k: usize, from: usize, cur: &mut Vec<Req>, out: &mut Vec<Vec<Req>>) {
+        if cur.len() == k {
+            out.push(cur.clone());
+            return;
+        }
+        for i in from..alpha.len() {
+            cur.push(alpha[i]);
+            rec(alpha, k, i, cur, out);
+            cur.pop();
+        }
+    }
+    let mut out = vec![];
+    rec(alpha, k, 0, &mut vec![], &mut out);
+    out
+}
+
+/// Returns (schedules, actions, request sets fully explored, request sets total, cap).
+fn concurrent_part(rep: &Report, tpl: &Template, tier: Tier, deadline: Instant) -> (u64, u64, usize, usize, Option<String>) {
+    install_gate();
+    let alpha = [Req::Ins1, Req::Upd1, Req::UpdB2, Req::Del1, Req::PkDupAt(2), Req::Upd1Same, Req::Ins12];
+    let mut sets = multisets(&alpha, 2);
+    sets.extend(multisets(&alpha, 3));
+    let _ = tier;
+    let mut schedules = 0u64;
+    let mut actions = 0u64;
+    let mut done_sets = 0usize;
+    let mut cap = None;
+    'sets: for set in &sets {
+        let mut stack: Vec<Vec<usize>> = vec![vec![]];
+        while let Some(prefix) = stack.pop() {
+            if Instant::now() > deadline {
+                cap = Some(format!("wall-clock cap after {done_sets} of {} request sets (all orders and interleavings each)", sets.len()));
+                break 'sets;
+            }
+            let out = run_conc(tpl, set, &prefix);
+            schedules += 1;
+            actions += out.acts.len() as u64;
+            if !out.violations.is_empty() {
+                let again = run_conc(tpl, set, &prefix);
+                let k1: Vec<&String> = out.violations.iter().map(|v| &v.0).collect();
+                let k2: Vec<&String> = again.violations.iter().map(|v| &v.0).collect();
+                if k1 != k2 {
+                    machinery_error(&format!("C07 concurrent: non-deterministic schedule {set:?} {prefix:?}: {k1:?} vs {k2:?}"));
+                }
+            }
+            for (k, d) in &out.violations {
+                rep.violation(k, json!({"concurrent": true, "requests": set, "prefix": prefix, "schedule": format!("{:?}", out.acts), "d": d}));
+            }
+            rep.outcome(out.outcome);
+            // a schedule is non-trivial when an announcement ran after a later request's critical section
+            let mut seen_r_after = false;
+            for (i, a) in out.acts.iter().enumerate() {
+                if let CAct::B(_) = a {
+                    if out.acts[..i].iter().rev().take_while(|x| matches!(x, CAct::R(_))).count() >= 2 {
+                        seen_r_after = true;
+                    }
+                }
+            }
+            if seen_r_after {
+                rep.nontrivial(digest(&format!("conc{set:?}{:?}", out.acts)));
+            }
+            if schedules % 211 == 7 {
+                rep.sample(json!({"concurrent": true, "requests": set, "schedule": format!("{:?}", out.acts)}));
+            }
+            for pos in prefix.len()..out.widths.len() {
+                for alt in 1..out.widths[pos] {
+                    let mut p2: Vec<usize> = (0..pos).map(|k| if k < prefix.len() { prefix[k] } else { 0 }).collect();
+                    p2.push(alt);
+                    stack.push(p2);
+                }
+            }
+        }
+        done_sets += 1;
+    }
+    (schedules, actions, done_sets, sets.len(), cap)
+}
+
 fn main() {
     let cli = parse_cli();
     let rep = Report::new("C07", cli.tier, cli.seed);
@@ -314,6 +644,17 @@ fn main() {
     let tpl = Template::build(0, SCHEMA);
     if let Some(p) = &cli.replay {
         let r = load_replay(p);
+        if r["concurrent"] == true {
+            install_gate();
+            let set: Vec<Req> = serde_json::from_value(r["requests"].clone()).unwrap();
+            let prefix: Vec<usize> = serde_json::from_value(r["prefix"].clone()).unwrap();
+            let out = run_conc(&tpl, &set, &prefix);
+            println!("schedule: {:?}", out.acts);
+            for (k, d) in &out.violations {
+                println!("reproduced {k}: {d}");
+            }
+            std::process::exit(if out.violations.is_empty() { 0 } else { 1 });
+        }
         let seq: Vec<Req> = serde_json::from_value(r["seq"].clone()).unwrap();
         let res = run_seq(&tpl, &seq);
         for (k, d) in &res.violations {
@@ -370,7 +711,7 @@ fn main() {
     seqs.push(vec![Req::Timeout]);
     seqs.push(vec![Req::Ins1, Req::Timeout, Req::Upd1]);
 
-    let deadline = Instant::now() + Duration::from_secs(cli.tier.pick(55, 1500));
+    let deadline = Instant::now() + Duration::from_secs(cli.tier.pick(30, 900));
     let mut execs = 0u64;
     let mut steps = 0u64;
     let mut capped = None;
@@ -401,17 +742,23 @@ fn main() {
             rep.sample(json!({"seq": seq}));
         }
     }
-    rep.set("states", execs);
-    rep.set("transitions", steps);
-    rep.set("evaluations", execs);
-    rep.set("traces_validated_against_impl", execs);
+    let (cs, ca, csets, csets_total, ccap) = concurrent_part(&rep, &tpl, cli.tier, Instant::now() + Duration::from_secs(cli.tier.pick(25, 900)));
+    rep.set("concurrent", json!({"schedules": cs, "actions": ca, "request_sets_fully_explored": csets, "request_sets": csets_total, "cap": ccap,
+        "what": "multisets of 2 and 3 requests over {Ins1, Upd1, UpdB2, Del1, PkDupAt(2), Upd1Same, Ins12}: every order of their critical sections x every placement of each version's announcement task after its commit (gate at the start of broadcast_changes)"}));
+    if ccap.is_some() {
+        capped = capped.or(ccap.clone());
+    }
+    rep.set("states", execs + cs);
+    rep.set("transitions", steps + ca);
+    rep.set("evaluations", execs + cs);
+    rep.set("traces_validated_against_impl", execs + cs);
     rep.set("announcements_split_into_several_chunks", MULTI_CHUNK.load(std::sync::atomic::Ordering::Relaxed));
     rep.set("exhaustive", capped.is_none());
     if let Some(c) = capped {
         rep.set("cap_hit", c);
     }
     rep.set("bounds", json!({"alphabet": alphabet.len(), "sequence_len_max": maxlen, "large_row_counts": larges.len(), "timeout_cases": 2}));
-    rep.assume("sequential requests only in this engine run; concurrent requests are serialised by the write pool (its exclusion and ordering are C20's checks)");
+    rep.assume("concurrent requests: a request's critical section (write connection + booked write lock, one block_in_place) is atomic with respect to other requests - that exclusion is C20's check; what is explored here is every order of the critical sections and every interleaving of the post-commit announcement tasks with later requests");
     rep.require_nontrivial(20, "a sequence is non-trivial when it contains at least one failing request and at least one acknowledged version");
     rep.finish();
 }
